@@ -28,8 +28,8 @@ def place_demo():
     locs = [t.strip('`\'"(),') for t in (meta.get('demo_location', '') or '').replace('<worktree>/', '').replace('<repo root>/', '').split()]
     # main.go demos: directory named in `go run [flags] ./dir`
     if os.path.isdir(os.path.join(mdir, 'demo')):
-        m = re.search(r'go run(?:\s+-\S+(?:\s+\S+=\S+)?)*\s+(\./[\w./-]+)', cmd)
-        d = m.group(1) if m else next((t for t in locs if '/' in t and not t.startswith('/')), 'demo_seed')
+        ms = re.findall(r'(?<![\w/])(\./[\w./-]+)', cmd.split('go run', 1)[-1]) if 'go run' in cmd else []
+        d = ms[-1] if ms else next((t for t in locs if '/' in t and not t.startswith('/') and not t.startswith('demo/')), 'demo_seed')
         if d.endswith('.go'):
             d = os.path.dirname(d)
         dst = os.path.join(tree, d.strip('./') or 'demo_seed')
@@ -56,7 +56,7 @@ try:
     place_demo()
 except Exception as e:
     ran.append('place_demo: %s' % e)
-demo = meta['demo_cmd'].replace('/tmp/mut-' + prop, tree).replace('<worktree>', tree)
+demo = meta['demo_cmd'].replace('/tmp/mut2-' + prop, tree).replace('/tmp/mut-' + prop, tree).replace('<worktree>', tree)
 rc_clean, o_clean = sh(demo, cwd=tree, timeout=900)
 ran.append('demo on clean HEAD: rc=%d' % rc_clean)
 rc, o = sh('git apply %s' % os.path.join(os.path.abspath(mdir), 'patch.diff'), cwd=tree)
